@@ -79,7 +79,7 @@ def instances(tier, rng):
                         ce = C.route_edges(rng.choice(cr))
                         variants.append({"cons": [[ce[0], ce[-1]]], "cov": rng.choice([[3, 4], [2, 3]])})
                         variants.append({"cons": [ce], "cov": rng.choice([[3, 4], [1, 2], [2, 3]])})
-                if not quick:
+                if not quick or (cls in C.MINCLS and rng.random() < 0.5):
                     variants.append({"mode": "node"})
                 for var in variants:
                     g += 1
